@@ -26,7 +26,8 @@ RULE += (
     "body raises; lru_method histories drop instances and create them anew; lazy-constant histories contain a "
     "second race (a refresh overtaken by dirty() finishing after the recomputation). 30% of the histories of "
     "lru_fn / lru_method / per_instance use a signature whose first parameter is positional-only; pair_fail "
-    "steps also make BOTH bodies fail (each call must end with its own body's exception)."
+    "steps also make BOTH bodies fail (each call must end with its own body's exception). Lazy step race3: a "
+    "failing computation that finishes after a successful overlapping one must not disturb the stored value."
 )
 ASSUMPTIONS = [
     "calls of one history are sequential (each completes before the next), except the explicit steps that put several calls in flight at once (two keys on the per-instance cache; 2-5 calls incl. repeated keys on the LRU caches, where the model stores results in the observed completion order)",
